@@ -210,8 +210,9 @@ char* SimpleStringInternalCache::alloc(size_t size)
             return allocateNewCacheBlockFrom(getCacheNodeFromSize(size))->memory_;
     }
 
-    nonCachedAllocations_ = createSimpleStringMemoryBlock(size, nonCachedAllocations_);
-    return nonCachedAllocations_->memory_;
+    SimpleStringMemoryBlock* block = createSimpleStringMemoryBlock(size, nonCachedAllocations_);
+    nonCachedAllocations_ = addToSimpleStringMemoryBlockList(block, nonCachedAllocations_);
+    return block->memory_;
 }
 
 void SimpleStringInternalCache::dealloc(char* memory, size_t size)
